@@ -1,15 +1,717 @@
-//! C11 — not built yet.
+//! C11 — path filter verdicts follow the documented glob, ignore and extension rules.
+//!
+//! Bounded-exhaustive enumeration of `GlobsetFilterer` configurations x probe events.
+//!
+//! Configuration = (filters, ignores, extensions, whitelist, ignore file yes/no):
+//!   * patterns from the glob grammar {name, *.ext, dir/, /rooted, a/b, **/x, x/**} with
+//!     leading-/trailing-slash variants; ignores additionally draw negated (`!p`) patterns,
+//!   * filters: every set of 0..=F patterns (non-negated, so order is immaterial),
+//!   * ignores: every ORDERED sequence of 0..=I distinct patterns, up to the one equivalence
+//!     that swapping two adjacent non-negated patterns cannot matter (runs of non-negated
+//!     patterns are kept sorted; order relative to negated patterns is fully enumerated),
+//!   * extensions: every subset of {rs, txt}; whitelist: every subset of two files;
+//!   * with and without one ignore file (real file in the origin, loaded by the real loader).
+//! Probes: every probe path x {file, dir, unknown} inside and outside the origin, two
+//! pathless events, and every ordered pair of seven key (path, type) probes as 2-path events.
+//!
+//! Oracles (from the property statement):
+//!   L1 pathless passes; L2 an event naming a whitelisted file passes; L3 otherwise, if the
+//!   ignore files reject the event it is rejected ("the ignore files reject" is decided by a
+//!   separately built `IgnoreFilterer` over the same file: its own semantics are C03's job);
+//!   L4 otherwise pass <=> some path is not ignore-matched and (nothing configured, or
+//!   filter-matched, or non-directory with a listed extension). "matched" = last matching
+//!   pattern wins and it is not negated, each single pattern decided by the glob library's own
+//!   `Gitignore::matched` on a one-pattern set (trusted base): what is checked is this
+//!   repository's composition and precedence, not the glob engine;
+//!   L5 (oracle-free) inserting a non-negated ignore pattern anywhere into the ignore list
+//!   never turns a reject into a pass; L6 the empty configuration passes every probe.
+//!
+//! Deviations from DESIGN section 7 / exclusions (things the statement leaves open):
+//!   * filters are never negated: "filters configured" for a list of only-negated filters is
+//!     not defined by the statement;
+//!   * no `*/x`-shaped filter: that is the one shape whose verdict the deliberate, source
+//!     documented "watchexec 1.x double slash" compatibility retry changes;
+//!   * probe file names always have a normal stem (no `.rs`-style dot files), so "has the
+//!     extension" is unambiguous;
+//!   * quick uses a 10+2 pattern grammar with F = I = 2, thorough a 16+4 grammar with F = 3,
+//!     I = 2 (ordered ignore triples over the big grammar do not fit the 10 minute budget).
+
+use std::{
+	collections::HashMap,
+	ffi::OsString,
+	path::PathBuf,
+	sync::atomic::{AtomicBool, Ordering},
+	time::{Duration, Instant},
+};
+
 use dex::orch::Tier;
-use serde_json::Value;
+use ignore::gitignore::GitignoreBuilder;
+use ignore_files::{IgnoreFile, IgnoreFilter};
+use serde_json::{json, Value};
+use watchexec::filter::Filterer;
+use watchexec_events::{Event, FileType, Priority, Tag};
+use watchexec_filterer_globset::GlobsetFilterer;
+use watchexec_filterer_ignore::IgnoreFilterer;
 
-use crate::common::EnumOut;
+use crate::common::{par_map, EnumOut, Scratch};
 
-pub fn replay(_input: &Value) -> Vec<(String, String)> {
-	vec![]
+// ---------------------------------------------------------------------------------------
+// grammar
+
+const BASE_QUICK: &[&str] = &["name", "*.rs", "dir/", "/rooted", "a/b", "**/x", "x/**", "/name", "name/", "/a/b/"];
+const NEG_QUICK: &[&str] = &["!name", "!*.rs"];
+const BASE_THOROUGH: &[&str] = &[
+	"name", "*.rs", "dir/", "/rooted", "a/b", "**/x", "x/**", "/name", "name/", "/a/b/", "*.txt", "/dir/", "/*.rs", "/**/x", "**/x/",
+	"/x/**",
+];
+const NEG_THOROUGH: &[&str] = &["!name", "!*.rs", "!dir/", "!a/b"];
+
+const EXT_SETS: &[&[&str]] = &[&[], &["rs"], &["txt"], &["rs", "txt"]];
+
+/// (relative path, inside the origin?)
+const PATHS: &[(&str, bool)] = &[
+	("name", true),
+	("a.rs", true),
+	("b.txt", true),
+	("rooted", true),
+	("x", true),
+	("dir", true),
+	("d.rs", true),
+	("dir/name", true),
+	("dir/a.rs", true),
+	("a/b", true),
+	("a/b/x", true),
+	("sub/rooted", true),
+	("sub/a/b", true),
+	("x/y", true),
+	("x/y/a.rs", true),
+	("sub/x", true),
+	("sub/name", true),
+	("name", false),
+	("a.rs", false),
+	("x/y", false),
+];
+/// the two "explicitly watched files" (indices into PATHS)
+const WL: [usize; 2] = [2, 7];
+const WL_SETS: &[&[usize]] = &[&[], &[2], &[7], &[2, 7]];
+/// content of the one ignore file (in the origin, applies in the origin)
+const IGNORE_FILE: &str = "b.txt\n/a/b/x\nsub/\n";
+
+#[derive(Clone, Copy, PartialEq, Eq, Hash, Debug)]
+enum Ft {
+	File,
+	Dir,
+	Unknown,
+}
+impl Ft {
+	const ALL: [Ft; 3] = [Ft::File, Ft::Dir, Ft::Unknown];
+	fn name(self) -> &'static str {
+		match self {
+			Ft::File => "file",
+			Ft::Dir => "dir",
+			Ft::Unknown => "unknown",
+		}
+	}
+	fn parse(s: &str) -> Ft {
+		match s {
+			"file" => Ft::File,
+			"dir" => Ft::Dir,
+			_ => Ft::Unknown,
+		}
+	}
+	fn real(self) -> Option<FileType> {
+		match self {
+			Ft::File => Some(FileType::File),
+			Ft::Dir => Some(FileType::Dir),
+			Ft::Unknown => None,
+		}
+	}
 }
 
-pub fn run(_tier: Tier, _seed: u64) -> EnumOut {
-	let mut o = EnumOut::new("not built");
-	o.machinery = Some("check not built yet".into());
-	o
+/// key (path, type) probes combined pairwise into 2-path events
+const PAIR_KEYS: &[(usize, Ft)] =
+	&[(0, Ft::File), (1, Ft::File), (2, Ft::File), (5, Ft::Dir), (13, Ft::Unknown), (18, Ft::File), (7, Ft::File)];
+
+type Probe = Vec<(usize, Ft)>;
+
+fn probes() -> Vec<Probe> {
+	let mut v: Vec<Probe> = vec![];
+	for p in 0..PATHS.len() {
+		for t in Ft::ALL {
+			v.push(vec![(p, t)]);
+		}
+	}
+	for a in PAIR_KEYS {
+		for b in PAIR_KEYS {
+			if a != b {
+				v.push(vec![*a, *b]);
+			}
+		}
+	}
+	v
+}
+/// pathless probes come after the path probes: 0 = no tags, 1 = a signal tag
+const PATHLESS: usize = 2;
+
+// ---------------------------------------------------------------------------------------
+// fixture and trusted-base tables
+
+struct Fixture {
+	_scratch: Scratch,
+	origin: PathBuf,
+	abs: Vec<PathBuf>,
+	ignfile: PathBuf,
+}
+
+impl Fixture {
+	fn new(tag: &str) -> Fixture {
+		let scratch = Scratch::new(tag);
+		let root = std::fs::canonicalize(scratch.path()).expect("canonical scratch");
+		let origin = root.join("o");
+		let outside = root.join("outside");
+		std::fs::create_dir_all(&origin).unwrap();
+		std::fs::create_dir_all(&outside).unwrap();
+		let ignfile = origin.join(".gitignore");
+		std::fs::write(&ignfile, IGNORE_FILE).unwrap();
+		let abs = PATHS.iter().map(|(rel, inside)| if *inside { origin.join(rel) } else { outside.join(rel) }).collect();
+		Fixture { _scratch: scratch, origin, abs, ignfile }
+	}
+	fn event(&self, probe: &Probe) -> Event {
+		Event {
+			tags: probe.iter().map(|(p, t)| Tag::Path { path: self.abs[*p].clone(), file_type: t.real() }).collect(),
+			metadata: Default::default(),
+		}
+	}
+	fn pathless(&self, i: usize) -> Event {
+		Event {
+			tags: if i == 0 { vec![] } else { vec![Tag::Signal(watchexec_signals::Signal::Interrupt)] },
+			metadata: Default::default(),
+		}
+	}
+	fn ignore_files(&self, on: bool) -> Vec<IgnoreFile> {
+		if on {
+			vec![IgnoreFile { path: self.ignfile.clone(), applies_in: Some(self.origin.clone()), applies_to: None }]
+		} else {
+			vec![]
+		}
+	}
+}
+
+/// Verdicts of the trusted base: single-pattern `Gitignore::matched` and the ignore-file layer.
+struct Tables {
+	pats: Vec<String>,
+	/// m[pattern][path][is_dir]: 0 no match, 1 match
+	m: Vec<Vec<[bool; 2]>>,
+	/// the separately built ignore-file filterer rejects probe i (path probes only)
+	ign_reject: Vec<bool>,
+}
+
+fn negated(p: &str) -> bool {
+	p.starts_with('!')
+}
+
+impl Tables {
+	fn new(rt: &tokio::runtime::Runtime, fx: &Fixture, pats: &[String], probes: &[Probe]) -> Result<Tables, String> {
+		let mut m = vec![];
+		for p in pats {
+			// the pattern itself, without the negation mark, as a one-pattern set
+			let body = p.strip_prefix('!').unwrap_or(p);
+			let mut b = GitignoreBuilder::new(&fx.origin);
+			b.add_line(None, body).map_err(|e| format!("pattern {p:?}: {e}"))?;
+			let g = b.build().map_err(|e| format!("pattern {p:?}: {e}"))?;
+			m.push(fx.abs.iter().map(|a| [g.matched(a, false).is_ignore(), g.matched(a, true).is_ignore()]).collect());
+		}
+		let mut igf = rt.block_on(IgnoreFilter::new(&fx.origin, &fx.ignore_files(true))).map_err(|e| format!("ignore file: {e}"))?;
+		igf.finish();
+		let igf = IgnoreFilterer(igf);
+		let ign_reject = probes.iter().map(|p| !igf.check_event(&fx.event(p), Priority::Normal).expect("never errors")).collect();
+		Ok(Tables { pats: pats.to_vec(), m, ign_reject })
+	}
+	/// gitignore list semantics: the last pattern that matches decides; negated = not matched
+	fn list_matches(&self, list: &[usize], path: usize, is_dir: bool) -> bool {
+		for &p in list.iter().rev() {
+			if self.m[p][path][usize::from(is_dir)] {
+				return !negated(&self.pats[p]);
+			}
+		}
+		false
+	}
+}
+
+/// extension of the last component, written out (names here always have a non-empty stem)
+fn extension(rel: &str) -> Option<&str> {
+	let name = rel.rsplit('/').next().unwrap_or(rel);
+	match name.rfind('.') {
+		Some(i) if i > 0 && i + 1 < name.len() => Some(&name[i + 1..]),
+		_ => None,
+	}
+}
+
+// ---------------------------------------------------------------------------------------
+// configurations and the reference model
+
+#[derive(Clone, Debug)]
+struct Config {
+	filters: Vec<usize>,
+	ignores: Vec<usize>,
+	exts: Vec<String>,
+	wl: Vec<usize>,
+	ignfile: bool,
+}
+
+impl Config {
+	fn is_empty(&self) -> bool {
+		self.filters.is_empty() && self.ignores.is_empty() && self.exts.is_empty() && self.wl.is_empty() && !self.ignfile
+	}
+	fn json(&self, tb: &Tables) -> Value {
+		json!({
+			"filters": self.filters.iter().map(|i| tb.pats[*i].clone()).collect::<Vec<_>>(),
+			"ignores": self.ignores.iter().map(|i| tb.pats[*i].clone()).collect::<Vec<_>>(),
+			"extensions": self.exts,
+			"whitelist": self.wl.iter().map(|w| PATHS[*w].0).collect::<Vec<_>>(),
+			"ignore_file": if self.ignfile { Value::from(IGNORE_FILE) } else { Value::Null },
+		})
+	}
+}
+
+#[derive(Clone, Copy, PartialEq, Eq, Hash, Debug)]
+enum Reason {
+	Pathless,
+	Whitelisted,
+	IgnoreFile,
+	IgnorePattern,
+	Unfiltered,
+	FilterMatch,
+	ExtensionMatch,
+	FilteredOut,
+}
+impl Reason {
+	fn name(self) -> &'static str {
+		match self {
+			Reason::Pathless => "pathless",
+			Reason::Whitelisted => "whitelisted-file",
+			Reason::IgnoreFile => "ignore-file-rejects",
+			Reason::IgnorePattern => "ignore-pattern-matches",
+			Reason::Unfiltered => "nothing-configured",
+			Reason::FilterMatch => "filter-matches",
+			Reason::ExtensionMatch => "extension-listed",
+			Reason::FilteredOut => "no-filter-or-extension-matches",
+		}
+	}
+	fn law(self) -> &'static str {
+		match self {
+			Reason::Pathless => "L1",
+			Reason::Whitelisted => "L2",
+			Reason::IgnoreFile => "L3",
+			_ => "L4",
+		}
+	}
+}
+
+/// The property statement as a function. `ign_reject` = the ignore-file layer rejects the event.
+fn expected(tb: &Tables, cfg: &Config, probe: &Probe, ign_reject: bool) -> (bool, Reason) {
+	if probe.is_empty() {
+		return (true, Reason::Pathless);
+	}
+	if probe.iter().any(|(p, _)| cfg.wl.contains(p)) {
+		return (true, Reason::Whitelisted);
+	}
+	if cfg.ignfile && ign_reject {
+		return (false, Reason::IgnoreFile);
+	}
+	let mut why = Reason::FilteredOut;
+	for (i, (p, t)) in probe.iter().enumerate() {
+		let is_dir = *t == Ft::Dir;
+		let r = if tb.list_matches(&cfg.ignores, *p, is_dir) {
+			Reason::IgnorePattern
+		} else if cfg.filters.is_empty() && cfg.exts.is_empty() {
+			return (true, Reason::Unfiltered);
+		} else if tb.list_matches(&cfg.filters, *p, is_dir) {
+			return (true, Reason::FilterMatch);
+		} else if !is_dir && extension(PATHS[*p].0).map_or(false, |e| cfg.exts.iter().any(|x| x == e)) {
+			return (true, Reason::ExtensionMatch);
+		} else {
+			Reason::FilteredOut
+		};
+		if i == 0 {
+			why = r;
+		}
+	}
+	(false, why)
+}
+
+fn build(rt: &tokio::runtime::Runtime, fx: &Fixture, tb: &Tables, cfg: &Config) -> Result<GlobsetFilterer, String> {
+	rt.block_on(GlobsetFilterer::new(
+		&fx.origin,
+		cfg.filters.iter().map(|i| (tb.pats[*i].clone(), None)),
+		cfg.ignores.iter().map(|i| (tb.pats[*i].clone(), None)),
+		cfg.wl.iter().map(|w| fx.abs[*w].clone()),
+		fx.ignore_files(cfg.ignfile),
+		cfg.exts.iter().map(OsString::from),
+	))
+	.map_err(|e| format!("GlobsetFilterer::new failed for {cfg:?}: {e}"))
+}
+
+fn probe_json(probe: &Probe) -> Value {
+	Value::Array(probe.iter().map(|(p, t)| json!({"path": PATHS[*p].0, "inside_origin": PATHS[*p].1, "type": t.name()})).collect())
+}
+
+fn shape(probe: &Probe) -> String {
+	match probe.len() {
+		0 => "pathless".into(),
+		1 => format!("{}-{}", probe[0].1.name(), if PATHS[probe[0].0].1 { "inside" } else { "outside" }),
+		_ => "two-paths".into(),
+	}
+}
+
+/// Compare one real verdict with the statement. Returns (key, detail) on disagreement.
+fn judge(tb: &Tables, cfg: &Config, probe: &Probe, ign_reject: bool, actual: bool) -> (Reason, Option<(String, String)>) {
+	let (want, why) = expected(tb, cfg, probe, ign_reject);
+	if want == actual {
+		return (why, None);
+	}
+	let verdict = |b: bool| if b { "pass" } else { "reject" };
+	let key = if cfg.is_empty() {
+		format!("C11/L6-empty-configuration-rejects/{}", shape(probe))
+	} else {
+		format!("C11/{}/expected-{}-because-{}/got-{}/{}", why.law(), verdict(want), why.name(), verdict(actual), shape(probe))
+	};
+	let detail = format!(
+		"config {} event {}: statement gives {} ({}), GlobsetFilterer::check_event gives {}",
+		cfg.json(tb),
+		probe_json(probe),
+		verdict(want),
+		why.name(),
+		verdict(actual)
+	);
+	(why, Some((key, detail)))
+}
+
+// ---------------------------------------------------------------------------------------
+// enumeration helpers
+
+/// all increasing index lists of length 0..=max over 0..n
+fn combinations(n: usize, max: usize) -> Vec<Vec<usize>> {
+	let mut out = vec![vec![]];
+	let mut frontier: Vec<Vec<usize>> = vec![vec![]];
+	for _ in 0..max {
+		let mut next = vec![];
+		for c in &frontier {
+			let start = c.last().map_or(0, |l| l + 1);
+			for i in start..n {
+				let mut d = c.clone();
+				d.push(i);
+				next.push(d);
+			}
+		}
+		out.extend(next.iter().cloned());
+		frontier = next;
+	}
+	out
+}
+
+/// sort every maximal run of non-negated patterns (swapping two adjacent non-negated
+/// patterns cannot change a last-match-wins list)
+fn canonical(pats: &[String], seq: &[usize]) -> Vec<usize> {
+	let mut v = seq.to_vec();
+	let mut i = 0;
+	while i < v.len() {
+		if negated(&pats[v[i]]) {
+			i += 1;
+			continue;
+		}
+		let mut j = i;
+		while j < v.len() && !negated(&pats[v[j]]) {
+			j += 1;
+		}
+		v[i..j].sort_unstable();
+		i = j;
+	}
+	v
+}
+
+/// all canonical ordered sequences of distinct patterns, length 0..=max
+fn sequences(pats: &[String], max: usize) -> Vec<Vec<usize>> {
+	let mut out = vec![vec![]];
+	let mut frontier: Vec<Vec<usize>> = vec![vec![]];
+	for _ in 0..max {
+		let mut next = vec![];
+		for c in &frontier {
+			for i in 0..pats.len() {
+				if c.contains(&i) {
+					continue;
+				}
+				let mut d = c.clone();
+				d.push(i);
+				if canonical(pats, &d) == d {
+					next.push(d);
+				}
+			}
+		}
+		out.extend(next.iter().cloned());
+		frontier = next;
+	}
+	out
+}
+
+struct Unit {
+	filters: Vec<usize>,
+	exts: Vec<String>,
+	wl: Vec<usize>,
+	ignfile: bool,
+}
+
+fn runtime() -> tokio::runtime::Runtime {
+	tokio::runtime::Builder::new_current_thread().enable_all().build().expect("tokio runtime")
+}
+
+// ---------------------------------------------------------------------------------------
+
+pub fn run(tier: Tier, seed: u64) -> EnumOut {
+	let (base, neg, max_f, max_i, budget) = match tier {
+		Tier::Quick => (BASE_QUICK, NEG_QUICK, 2, 2, Duration::from_secs(25)),
+		Tier::Thorough => (BASE_THOROUGH, NEG_THOROUGH, 3, 2, Duration::from_secs(540)),
+	};
+	let rule = "non-trivial = distinct (probe event, deciding clause of the statement) pairs over evaluations not decided by 'nothing configured' (the empty-configuration clause); per-clause evaluation counts in `by_clause`";
+	let mut out = EnumOut::new(rule);
+	out.assumptions = vec![
+		"trusted base: ignore::gitignore::Gitignore::matched on one-pattern sets decides whether a single glob matches a path".into(),
+		"trusted base: a separately built IgnoreFilterer decides whether the ignore file rejects an event (its semantics are C03)".into(),
+		"filters are non-negated patterns; no */x-shaped filter (deliberate 1.x double-slash compatibility); file names have a normal stem".into(),
+	];
+
+	let pats: Vec<String> = base.iter().chain(neg.iter()).map(|s| s.to_string()).collect();
+	let n_base = base.len();
+	let fx = Fixture::new("c11");
+	let probes = probes();
+	let rt0 = runtime();
+	let tb = match Tables::new(&rt0, &fx, &pats, &probes) {
+		Ok(t) => t,
+		Err(e) => {
+			out.machinery = Some(e);
+			return out;
+		}
+	};
+	drop(rt0);
+
+	let filter_sets = combinations(n_base, max_f);
+	let ignore_seqs = sequences(&pats, max_i);
+	let index: HashMap<Vec<usize>, usize> = ignore_seqs.iter().cloned().enumerate().map(|(i, s)| (s, i)).collect();
+
+	let mut units = vec![];
+	for f in &filter_sets {
+		for e in EXT_SETS {
+			for w in WL_SETS {
+				for ignfile in [false, true] {
+					units.push(Unit { filters: f.clone(), exts: e.iter().map(|s| s.to_string()).collect(), wl: w.to_vec(), ignfile });
+				}
+			}
+		}
+	}
+	// seed only permutes the work order (also balances the static chunks)
+	let mut s = seed.wrapping_mul(0x9E37_79B9_7F4A_7C15).wrapping_add(0x1234_5678_9ABC_DEF1);
+	for i in (1..units.len()).rev() {
+		s = s.wrapping_mul(6364136223846793005).wrapping_add(1442695040888963407);
+		let j = ((s >> 33) as usize) % (i + 1);
+		units.swap(i, j);
+	}
+
+	let t0 = Instant::now();
+	let cut = AtomicBool::new(false);
+	let n_events = probes.len() + PATHLESS;
+	let events: Vec<Event> = probes.iter().map(|p| fx.event(p)).chain((0..PATHLESS).map(|i| fx.pathless(i))).collect();
+	let no_paths: Probe = vec![];
+
+	let mut res = par_map(&units, 16, |chunk, _| {
+		let mut o = EnumOut::default();
+		let rt = runtime();
+		let mut by_clause: HashMap<Reason, u64> = HashMap::new();
+		let mut sampled: Vec<Reason> = vec![];
+		let (mut rejects, mut l5_pairs, mut table_hits) = (0u64, 0u64, 0u64);
+		for u in chunk {
+			if t0.elapsed() > budget {
+				cut.store(true, Ordering::Relaxed);
+				break;
+			}
+			let mut verdicts: Vec<Vec<bool>> = Vec::with_capacity(ignore_seqs.len());
+			for seq in &ignore_seqs {
+				let cfg = Config { filters: u.filters.clone(), ignores: seq.clone(), exts: u.exts.clone(), wl: u.wl.clone(), ignfile: u.ignfile };
+				let f = match build(&rt, &fx, &tb, &cfg) {
+					Ok(f) => f,
+					Err(e) => {
+						o.machinery = Some(e);
+						return o;
+					}
+				};
+				o.states += 1;
+				let mut row = Vec::with_capacity(n_events);
+				for (ei, ev) in events.iter().enumerate() {
+					let actual = f.check_event(ev, Priority::Normal).expect("check_event never errors");
+					o.evaluations += 1;
+					row.push(actual);
+					let (probe, ign_reject) = if ei < probes.len() { (&probes[ei], tb.ign_reject[ei]) } else { (&no_paths, false) };
+					if cfg.ignfile && ign_reject {
+						table_hits += 1;
+					}
+					let (why, bad) = judge(&tb, &cfg, probe, ign_reject, actual);
+					*by_clause.entry(why).or_default() += 1;
+					if !actual {
+						rejects += 1;
+					}
+					if why != Reason::Unfiltered {
+						o.nontrivial_mark((ei, why));
+					}
+					if let Some((key, detail)) = bad {
+						o.violate(key, detail, json!({"law": "verdict", "config": cfg.json(&tb), "event": probe_json(probe)}));
+					} else if !sampled.contains(&why) {
+						sampled.push(why);
+						o.sample(json!({"config": cfg.json(&tb), "event": probe_json(probe), "verdict": if actual {"pass"} else {"reject"}, "clause": why.name()}));
+					}
+				}
+				verdicts.push(row);
+			}
+			// L5: inserting a non-negated ignore pattern anywhere never turns reject into pass
+			for (si, seq) in ignore_seqs.iter().enumerate() {
+				if seq.len() >= max_i {
+					continue;
+				}
+				for p in 0..n_base {
+					if seq.contains(&p) {
+						continue;
+					}
+					for pos in 0..=seq.len() {
+						let mut bigger = seq.clone();
+						bigger.insert(pos, p);
+						let Some(&bi) = index.get(&canonical(&pats, &bigger)) else { continue };
+						l5_pairs += 1;
+						for ei in 0..n_events {
+							if verdicts[bi][ei] && !verdicts[si][ei] {
+								let probe = if ei < probes.len() { &probes[ei] } else { &no_paths };
+								let cfg = Config { filters: u.filters.clone(), ignores: seq.clone(), exts: u.exts.clone(), wl: u.wl.clone(), ignfile: u.ignfile };
+								o.violate(
+									format!("C11/L5-added-ignore-pattern-turns-reject-into-pass/{}", shape(probe)),
+									format!(
+										"config {} rejects event {}, but with ignore pattern {:?} inserted at position {pos} it passes",
+										cfg.json(&tb),
+										probe_json(probe),
+										pats[p]
+									),
+									json!({"law": "L5", "config": cfg.json(&tb), "event": probe_json(probe), "added": pats[p], "position": pos}),
+								);
+							}
+						}
+					}
+				}
+			}
+		}
+		for (r, n) in by_clause {
+			o.extra.insert(format!("clause:{}", r.name()), json!(n));
+		}
+		o.extra.insert("rejects".into(), json!(rejects));
+		o.extra.insert("l5_config_pairs".into(), json!(l5_pairs));
+		o.extra.insert("ignore_file_rejecting_evaluations".into(), json!(table_hits));
+		o
+	});
+
+	if cut.load(Ordering::Relaxed) {
+		res.caps.push(format!("wall budget of {} s reached before all {} work units were enumerated", budget.as_secs(), units.len()));
+	}
+	// fold the per-clause counters into one object
+	let mut by = serde_json::Map::new();
+	let keys: Vec<String> = res.extra.keys().filter(|k| k.starts_with("clause:")).cloned().collect();
+	for k in keys {
+		if let Some(v) = res.extra.remove(&k) {
+			by.insert(k["clause:".len()..].to_string(), v);
+		}
+	}
+	res.extra.insert("by_clause".into(), Value::Object(by));
+	res.extra.insert(
+		"grammar".into(),
+		json!({
+			"filter_patterns": base, "ignore_patterns": pats, "max_filters": max_f, "max_ignores": max_i,
+			"filter_sets": filter_sets.len(), "ignore_sequences": ignore_seqs.len(),
+			"extension_sets": EXT_SETS.len(), "whitelist_sets": WL_SETS.len(), "ignore_file": [false, true],
+			"probe_events": n_events, "probe_paths": PATHS.len(),
+		}),
+	);
+	res.rule = out.rule;
+	res.assumptions = out.assumptions;
+	let _ = WL;
+	res
+}
+
+// ---------------------------------------------------------------------------------------
+// replay of one recorded case
+
+fn parse_probe(v: &Value) -> Result<Probe, String> {
+	let mut probe = vec![];
+	for e in v.as_array().ok_or("event is not an array")? {
+		let rel = e["path"].as_str().ok_or("event path")?;
+		let inside = e["inside_origin"].as_bool().ok_or("event inside_origin")?;
+		let idx = PATHS.iter().position(|(r, i)| *r == rel && *i == inside).ok_or_else(|| format!("unknown probe path {rel}"))?;
+		probe.push((idx, Ft::parse(e["type"].as_str().unwrap_or("unknown"))));
+	}
+	Ok(probe)
+}
+
+fn strings(v: &Value) -> Vec<String> {
+	v.as_array().map(|a| a.iter().filter_map(|s| s.as_str().map(str::to_string)).collect()).unwrap_or_default()
+}
+
+pub fn replay(input: &Value) -> Vec<(String, String)> {
+	let go = || -> Result<Vec<(String, String)>, String> {
+		let c = &input["config"];
+		let filters = strings(&c["filters"]);
+		let ignores = strings(&c["ignores"]);
+		let added = input["added"].as_str().map(str::to_string);
+		let mut pats: Vec<String> = vec![];
+		for p in filters.iter().chain(ignores.iter()).chain(added.iter()) {
+			if !pats.contains(p) {
+				pats.push(p.clone());
+			}
+		}
+		let idx = |p: &String| pats.iter().position(|q| q == p).unwrap();
+		let wl = strings(&c["whitelist"])
+			.iter()
+			.map(|w| PATHS.iter().position(|(r, i)| r == w && *i).ok_or_else(|| format!("unknown whitelist file {w}")))
+			.collect::<Result<Vec<_>, _>>()?;
+		let cfg = Config {
+			filters: filters.iter().map(idx).collect(),
+			ignores: ignores.iter().map(idx).collect(),
+			exts: strings(&c["extensions"]),
+			wl,
+			ignfile: !c["ignore_file"].is_null(),
+		};
+		let probe = parse_probe(&input["event"])?;
+		let fx = Fixture::new("c11-replay");
+		let rt = runtime();
+		let probes = vec![probe.clone()];
+		let tb = Tables::new(&rt, &fx, &pats, &probes)?;
+		let ev = if probe.is_empty() { fx.pathless(0) } else { fx.event(&probe) };
+		let ign_reject = !probe.is_empty() && tb.ign_reject[0];
+		let f = build(&rt, &fx, &tb, &cfg)?;
+		let actual = f.check_event(&ev, Priority::Normal).map_err(|e| e.to_string())?;
+		let mut v = vec![];
+		if input["law"].as_str() == Some("L5") {
+			let p = idx(added.as_ref().ok_or("L5 case without added pattern")?);
+			let pos = input["position"].as_u64().unwrap_or(0) as usize;
+			let mut bigger = cfg.clone();
+			bigger.ignores.insert(pos.min(bigger.ignores.len()), p);
+			let g = build(&rt, &fx, &tb, &bigger)?;
+			let after = g.check_event(&ev, Priority::Normal).map_err(|e| e.to_string())?;
+			if after && !actual {
+				v.push((
+					format!("C11/L5-added-ignore-pattern-turns-reject-into-pass/{}", shape(&probe)),
+					format!("config {} rejects event {}, but with ignore pattern {:?} inserted at position {pos} it passes", cfg.json(&tb), probe_json(&probe), pats[p]),
+				));
+			}
+		} else if let (_, Some(bad)) = judge(&tb, &cfg, &probe, ign_reject, actual) {
+			v.push(bad);
+		}
+		Ok(v)
+	};
+	match go() {
+		Ok(v) => v,
+		Err(e) => vec![("C11/replay-machinery".into(), e)],
+	}
 }
